@@ -411,7 +411,7 @@ def generic_check(cfg, argv):
         "oracle_failures": len(meta.get("oracle_failures") or []),
         "known_findings_seen": sorted(seen_known),
         "input_distribution": meta.get("distribution", {}),
-        "model_shards": len(meta.get("shards", [])),
+        "model_shards": len(meta.get("shards") or []),
         "notes": notes + meta.get("notes", []) + machinery,
         "extra": meta.get("extra", {}),
     }
